@@ -492,6 +492,20 @@ mod borrowed {
     use super::*;
     use dsi_bitstream::prelude::*;
 
+    /// An operation on a writer that is about to be dropped: if it fails, the writer is leaked before
+    /// panicking (its Drop flushes and unwraps: a second panic during unwinding would abort the process).
+    macro_rules! ck {
+        ($w:ident, $e:expr) => {
+            match $e {
+                Ok(_) => {}
+                Err(e) => {
+                    std::mem::forget($w);
+                    panic!("writer operation failed: {}", e);
+                }
+            }
+        };
+    }
+
     macro_rules! run_borrowed {
         ($E:ty, $W:ty, $e:expr, $ops:expr, $rep:expr) => {{
             let e: En = $e;
@@ -508,9 +522,9 @@ mod borrowed {
                 let mut w = BufBitWriter::<$E, _>::new(MemWordWriterVec::new(&mut v));
                 for op in ops {
                     match op {
-                        WOp::Bits(x, n) => { w.write_bits(*x, *n).unwrap(); }
-                        WOp::Unary(x) => { w.write_unary(*x).unwrap(); }
-                        _ => { BitWrite::flush(&mut w).unwrap(); }
+                        WOp::Bits(x, n) => { ck!(w, w.write_bits(*x, *n)); }
+                        WOp::Unary(x) => { ck!(w, w.write_unary(*x)); }
+                        _ => { ck!(w, BitWrite::flush(&mut w)); }
                     }
                 }
                 drop(w);
@@ -528,9 +542,9 @@ mod borrowed {
                 let mut w = BufBitWriter::<$E, _>::new(MemWordWriterSlice::new(&mut s[..]));
                 for op in ops {
                     match op {
-                        WOp::Bits(x, n) => { w.write_bits(*x, *n).unwrap(); }
-                        WOp::Unary(x) => { w.write_unary(*x).unwrap(); }
-                        _ => { BitWrite::flush(&mut w).unwrap(); }
+                        WOp::Bits(x, n) => { ck!(w, w.write_bits(*x, *n)); }
+                        WOp::Unary(x) => { ck!(w, w.write_unary(*x)); }
+                        _ => { ck!(w, BitWrite::flush(&mut w)); }
                     }
                 }
                 drop(w);
@@ -549,9 +563,9 @@ mod borrowed {
                 let mut w = BufBitWriter::<$E, _>::new(MemWordWriterSlice::new(boxed));
                 for op in ops {
                     match op {
-                        WOp::Bits(x, n) => { w.write_bits(*x, *n).unwrap(); }
-                        WOp::Unary(x) => { w.write_unary(*x).unwrap(); }
-                        _ => { BitWrite::flush(&mut w).unwrap(); }
+                        WOp::Bits(x, n) => { ck!(w, w.write_bits(*x, *n)); }
+                        WOp::Unary(x) => { ck!(w, w.write_unary(*x)); }
+                        _ => { ck!(w, BitWrite::flush(&mut w)); }
                     }
                 }
                 w.into_inner().unwrap().into_inner()
